@@ -212,7 +212,7 @@ def seq_slice(sv, lo, hi):
     newlen = z3.If(hi_ - lo_ > 0, hi_ - lo_, z3.IntVal(0))
     j = z3.Int('j!sl')
     arr = z3.Lambda([j], z3.If(z3.And(0 <= j, j < newlen), sv.ty.arr(sv.t)[j + lo_], sv.ty.elem.dflt()))
-    return SV(sv.ty, sv.ty.mk(z3.simplify(newlen), arr))
+    return SV(sv.ty, sv.ty.mk(z3.simplify(newlen), arr), extra=('slice', sv, lo_, newlen))
 
 
 def map_has(sv, k):
